@@ -343,7 +343,10 @@ ENABLED = [[], ['gzip'], ['lz4'], ['gzip', 'lz4'], ['lz4', 'gzip'], ['gzip', 'x-
 N_STYLES = 4
 
 
-def header_text(hdr: list[dict], style: int):
+MALFORMED_Q = ['abc', '', None, '1x', '1.0.0', '.', '0.5.5', '1..0', '1e0']   # None: the bare parameter name
+
+
+def header_text(hdr: list[dict], style: int, salt: int = 0):
     """Concrete Accept-Encoding value for an abstract header; None = header absent."""
     if not hdr:
         return [None, '', ' ', ''][style]
@@ -355,7 +358,8 @@ def header_text(hdr: list[dict], style: int):
         if q == 'absent':
             parts.append(tok)
         elif q == 'malformed':
-            parts.append(tok + semi + ['q' + eq + 'abc', 'q' + eq, 'q', 'q' + eq + '1x'][style])
+            bad = MALFORMED_Q[(style + salt) % len(MALFORMED_Q)]
+            parts.append(tok + semi + ('q' if bad is None else 'q' + eq + bad))
         else:
             parts.append(tok + semi + 'q' + eq + Q_TEXT[q][style])
     return sep.join(parts)
@@ -381,7 +385,7 @@ def conc_nego(ctx, case, idx, body, reply):
     for style, enabled in combos:
         if style == 3 and not any(e['tok'] not in ('*',) for e in hdr):
             continue
-        text = header_text(hdr, style)
+        text = header_text(hdr, style, idx)
         hl = [('Content-Length', str(len(body)))] + ([('Accept-Encoding', text)] if text is not None else [])
         s = H.serve(H.mk_request('POST', '/svc/x', hl, body), list(enabled), (0, 5)[idx % 2], reply)
         res, val, rh = H.read_response(s.raw_response)
